@@ -416,6 +416,28 @@ class Verifier:
                                      text=f"self.{attr} is only accessed while {lockpath} is held")
             I.hooks["field_read"] = lambda ref, attr: chk(ref, attr, "read")
             I.hooks["field_write"] = lambda ref, attr: chk(ref, attr, "write")
+        if c.locks.get("discipline"):
+            # lock discipline from which atomicity follows: never two locks at once (no deadlock for any set of calls), and all guarded
+            # accesses of one public call lie in ONE critical section (so the call's sequential contract applies to one atomic step)
+            run = I.run
+            run.sections = 0
+
+            def on_acquire(cm, text):
+                others = [o for o in run.held_locks if o != cm.oid]
+                I.ctx.oblige(I, "lock-order", text, z3.BoolVal(not others), f"{text} acquired while another lock is held", False,
+                             text="no lock is acquired while another lock is held")
+                run.sections += 1
+
+            def on_contract_call(cc, recv, args, kwargs):
+                rel, qual = cc.target.split("::")
+                fnode, ci = self.repo.function_source(rel, qual)
+                acq = I.callee_acquires(fnode, ci)
+                if acq:
+                    I.ctx.oblige(I, "lock-order", f"call:{qual}", z3.BoolVal(not run.held_locks),
+                                 f"{qual} takes a lock and is called while a lock is held", False, text="no lock-taking callee is called inside a critical section")
+                    run.sections += 1
+            I.hooks["lock_acquire"] = on_acquire
+            I.hooks["contract_call"] = on_contract_call
 
     def check_frame(self, I, c, fr, run, sframe):
         """everything reachable from the tracked objects that is not named in `modifies` is unchanged"""
@@ -516,6 +538,10 @@ class Verifier:
                     kind = "inv-init" if (c.is_init and n == "self") else "inv-preserved"
                     self.oblige_clause(I, ctx, kind, lbl if n == "self" else f"{n}:{lbl}", ex, sframe,
                                        dict(extra, self=v), fr)
+        if c.locks.get("discipline"):
+            ctx.oblige(I, "single-section", "one-critical-section-per-call", z3.BoolVal(getattr(run, "sections", 0) <= 1),
+                       f"{getattr(run, 'sections', 0)} critical sections in one call: other threads can observe the state between them", False,
+                       text="all guarded accesses of the call lie in one critical section")
         if c.modifies is not None:
             self.check_frame(I, c, fr, run, sframe)
         I.exit_checks(c, fr, sframe, extra, exc)
